@@ -75,7 +75,7 @@ def _case(dtype, shape, block, chans, gen=None):
 
 
 LAYOUTS = ("C", "F", "xyzc-view", "strided", "narrow-dtype", "bigendian",
-           "wider-dtype", "too-wide-values")
+           "wider-dtype", "too-wide-values", "via-get_encoder")
 _ENCODERS = {}
 
 
@@ -115,6 +115,19 @@ def _lay(arr, layout):
     return arr
 
 
+def _encoder_via_info(dtype, nch, block):
+    """the encoder the dataset I/O layer and every script use: built by
+    get_encoder() from an info whose block size is (x, y, z)"""
+    from neuroglancer_scripts import chunk_encoding
+    scale = {"key": "s", "size": [64, 64, 64], "chunk_sizes": [[64, 64, 64]],
+             "resolution": [1, 1, 1], "voxel_offset": [0, 0, 0],
+             "encoding": "compressed_segmentation",
+             "compressed_segmentation_block_size": list(block)}
+    info = {"type": "segmentation", "data_type": dtype, "num_channels": nch,
+            "scales": [scale]}
+    return chunk_encoding.get_encoder(info, scale)
+
+
 def _evaluate(col, dtype, shape, block, chans, gen=None, layout="C"):
     from neuroglancer_scripts.chunk_encoding import (
         CompressedSegmentationEncoder,
@@ -134,13 +147,17 @@ def _evaluate(col, dtype, shape, block, chans, gen=None, layout="C"):
     try:
         # one encoder object serves many chunks (as in a conversion run):
         # results must not depend on what it encoded before
-        key = (dtype, nch, tuple(block))
+        via_info = layout == "via-get_encoder"
+        key = (dtype, nch, tuple(block), via_info)
         enc = _ENCODERS.get(key)
         if enc is None:
             if len(_ENCODERS) > 64:
                 _ENCODERS.clear()
-            enc = _ENCODERS[key] = CompressedSegmentationEncoder(
-                dtype, nch, list(block))
+            if via_info:
+                enc = _ENCODERS[key] = _encoder_via_info(dtype, nch, block)
+            else:
+                enc = _ENCODERS[key] = CompressedSegmentationEncoder(
+                    dtype, nch, list(block))
         buf = enc.encode(arr)
         if layout == "too-wide-values" and arr.dtype != ref.dtype:
             col.ev(1, nontriv, "bad/accepted-too-wide-labels")
